@@ -323,4 +323,24 @@ example : AD.sepB 10 20
     [.mk "*ast.GenDecl" 0 true 10 20 [] false "" false [], .mk "*ast.FuncDecl" 0 true 22 40 [] false "" false []]
     [⟨5, 22⟩, ⟨20, 40⟩] [.same 0, .deleted] = true := by decide
 
+/-- **A node edited in place keeps the comments around it** (F27).  When a pointer or interface value is
+compared with the value of one and the same node object (`sameNodeB`: the package name a change renamed,
+the parent of a replaced node), the new snapshot records for it the comment groups the old snapshot
+recorded, whether or not the node compared equal - so the next `Diff` still knows which comments trail
+it, and a later change that deletes its neighbour does not take them along. -/
+theorem edited_in_place_keeps_comments (R : AD.Rg) (ty : String) (k : Nat) (isn : Bool) (p e : Nat)
+    (cms : List AD.CG) (pl : String) (en : Bool) (kids : List AD.AV) (to : AD.AV)
+    (hk : (k == AD.kPtr || k == AD.kIface) = true) (hty : (ty != to.ty) = false)
+    (h1 : (ty == AD.tyObject) = false) (h2 : (ty == AD.tyCommentGroup) = false) (h3 : (ty == AD.tyPos) = false)
+    (hnn : to.isNil = false) (hs : AD.sameNodeB isn k pl kids to = true) :
+    (AD.walk R (.mk ty k isn p e cms false pl en kids) to).to.cms = cms := by
+  rw [AD.walk.eq_def]
+  simp only [hty, h1, h2, h3, hk, hnn, hs, Bool.false_eq_true, ↓reduceIte, Bool.or_true]
+  cases to with
+  | mk t k' n p' e' c nl pl' en' ks => simp [AD.AV.withCms, AD.AV.withKids, AD.AV.cms]
+
+/-- non-vacuity: the identifier of the package clause, renamed in place (object 7 in both snapshots) -/
+example : AD.sameNodeB true AD.kPtr "@7" [.mk "ast.Ident" 3 false 0 0 [] false "" false []]
+    (.mk "*ast.Ident" 0 true 9 10 [] false "@7" false [.mk "ast.Ident" 3 false 0 0 [] false "" false []]) = true := by decide
+
 end Gopatch.C17
